@@ -1,6 +1,7 @@
 package props
 
 import (
+	"github.com/glebziz/fs_db"
 	"path/filepath"
 	"sync"
 	"sync/atomic"
@@ -22,6 +23,7 @@ func init() {
 		Roles: map[string]Role{
 			"main":       {N: func(t string) int { return tierN(t, 200, 6000) }, Case: c13Case},
 			"concurrent": {N: func(t string) int { return tierN(t, 16, 160) }, Case: c13Concurrent},
+			"churn":      {N: func(t string) int { return tierN(t, 8, 160) }, Case: c13Churn},
 		},
 	})
 }
@@ -244,6 +246,124 @@ func c13Concurrent(tier string, seed int64, idx int, scratch string) rt.CaseResu
 	}
 	if idx == 0 {
 		c.Sample = map[string]any{"scenario": "3 goroutines read through a transaction while it is committed/rolled back; reads issued afterwards must fail", "iterations": iters}
+	}
+	return c
+}
+
+// c13Churn: many goroutines begin and end transactions of all levels at the same time (each
+// transaction is used by one goroutine only). Whatever the registry does to keep its order under
+// concurrent Begins and ends, a handle whose Commit or Rollback has returned stays finished: every
+// read and a further Commit through it fail with ErrTxNotFound, a further Rollback is a no-op -
+// checked right after the end and once more at the end of each round, when all the other
+// goroutines have begun and ended many transactions in between.
+func c13Churn(tier string, seed int64, idx int, scratch string) rt.CaseResult {
+	var c rt.CaseResult
+	mode := dbx.Inline
+	if idx%4 == 3 {
+		mode = dbx.Grpc
+	}
+	env, err := dbx.Open(dbx.Options{Mode: mode, Dir: filepath.Join(scratch, "db")})
+	if err != nil {
+		c.Violate("open-failed", err.Error(), nil)
+		return c
+	}
+	defer env.Close()
+	env.DB.Set(ctxBg, "k", []byte("v0"))
+	workers := 4 + idx%3*6
+	rounds, perRound := tierN(tier, 30, 120), 12
+	if mode == dbx.Grpc {
+		rounds /= 3
+	}
+	var mu sync.Mutex
+	report := func(sig, what string, rp map[string]any) {
+		mu.Lock()
+		defer mu.Unlock()
+		if len(c.Violations) < 3 {
+			c.Violate(sig, what, rp)
+		}
+	}
+	probe := func(tx fs_db.Tx, when, end string, level int) bool {
+		_, e1 := tx.Get(ctxBg, "k")
+		_, e2 := tx.GetKeys(ctxBg)
+		ok := true
+		for i, e := range []error{e1, e2} {
+			if cls := seqrun.Class(e); cls != refmodel.TxNotFound {
+				op := []string{"get", "getkeys"}[i]
+				report(fmt.Sprintf("late-read-accepted-under-churn op=%s got=%s", op, cls), fmt.Sprintf("%s: %s through a level-%d transaction whose %s had returned gave %s instead of ErrTxNotFound, while %d goroutines were beginning and ending transactions (%s)", when, op, level, end, cls, workers, modeName(mode)), map[string]any{"mode": modeName(mode), "level": level, "end": end, "when": when, "workers": workers})
+				ok = false
+			}
+		}
+		return ok
+	}
+	var evals atomic.Int64
+	for round := 0; round < rounds && len(c.Violations) == 0; round++ {
+		rt.Beat()
+		var wg sync.WaitGroup
+		finished := make([][]fs_db.Tx, workers)
+		levels := make([][]int, workers)
+		start := make(chan struct{})
+		for w := 0; w < workers; w++ {
+			wg.Add(1)
+			go func(w int) {
+				defer wg.Done()
+				rng := seqrun.Rng(seed, "C13ch", (idx*1000+round)*100+w)
+				<-start
+				for i := 0; i < perRound; i++ {
+					level := rng.Intn(4)
+					tx, err := env.DB.Begin(ctxBg, verif.IsoLevel(level))
+					if err != nil {
+						report("begin-failed", err.Error(), nil)
+						return
+					}
+					if rng.Intn(3) == 0 {
+						tx.Get(ctxBg, "k")
+					}
+					end := "commit"
+					if rng.Intn(2) == 0 {
+						end = "rollback"
+						err = tx.Rollback(ctxBg)
+					} else {
+						err = tx.Commit(ctxBg)
+					}
+					if err != nil {
+						report("end-failed op="+end, fmt.Sprint(err), nil)
+						return
+					}
+					evals.Add(3)
+					if !probe(tx, "right after the end", end, level) {
+						return
+					}
+					finished[w] = append(finished[w], tx)
+					levels[w] = append(levels[w], level)
+				}
+			}(w)
+		}
+		close(start)
+		wg.Wait()
+		if len(c.Violations) > 0 {
+			break
+		}
+		for w := range finished {
+			for i, tx := range finished[w] {
+				evals.Add(4)
+				if !probe(tx, "at the end of the round", "Commit/Rollback", levels[w][i]) {
+					break
+				}
+				if e := tx.Commit(ctxBg); seqrun.Class(e) != refmodel.TxNotFound {
+					report("late-commit-accepted-under-churn got="+string(seqrun.Class(e)), fmt.Sprintf("a second Commit through a finished transaction returned %v at the end of a round of concurrent Begins and ends", e), map[string]any{"mode": modeName(mode), "workers": workers})
+					break
+				}
+				if e := tx.Rollback(ctxBg); e != nil {
+					report("late-rollback-not-a-no-op-under-churn", fmt.Sprintf("Rollback through a finished transaction returned %v", e), map[string]any{"mode": modeName(mode), "workers": workers})
+					break
+				}
+			}
+		}
+		c.AddDistinct(fmt.Sprintf("churn/%s/workers=%d", modeName(mode), workers))
+	}
+	c.Evals = evals.Load()
+	if idx == 0 {
+		c.Sample = map[string]any{"scenario": "goroutines beginning and ending transactions concurrently; finished handles probed right away and at the end of each round", "workers": workers, "rounds": rounds, "transactions_per_goroutine_and_round": perRound}
 	}
 	return c
 }
